@@ -73,10 +73,12 @@ CHECKS = {
              "expression-only fields - vs the transcription of bounded_types/generate_bounds of display.rs and debug.rs) over "
              "attribute levels x parameter assignments x reference kinds; each case's real where-clause (in-process expansion) "
              "is compared as a set of obligations, and each case is compiled with the real derive: generic impl without user "
-             "bounds (sufficiency) and `S<..NoFmt..>: Trait` for unformatted parameters (non-excess).",
-        note="field types T, &'static T, W<T>, i32; <= 2 fields; <= 1 (quick) / 2 (thorough) placeholders; `bound(...)` "
-             "predicates are covered by C17's synonym checks, not here; one recorded finding (static-ref shadow).",
-        technique="TLA+ spec (FmtBounds) + TLC exhaustive cases, replay: where-clause sets in-process + rustc trait resolution",
+             "bounds (sufficiency) and `S<..NoFmt..>: Trait` for unformatted parameters (non-excess). TypeShapes.tla decides the "
+             "same for 16 syntactic wrappers of a type parameter, and ExplicitBounds.tla the `bound(...)` clause: every predicate "
+             "written on the item or on a variant (with / without generic fields, with / without a literal) is part of the impl.",
+        note="field types T, &'static T, W<T>, i32; <= 2 fields; <= 1 (quick) / 2 (thorough) placeholders; one recorded "
+             "finding (static-ref shadow).",
+        technique="TLA+ specs (FmtBounds, TypeShapes, ExplicitBounds) + TLC exhaustive cases, replay: where-clause sets in-process + rustc trait resolution",
         design="4 (C04)"),
     "C02": dict(
         text="TLC model-checks FmtText.tla (documented bindings - field itself when named in the literal, a reference inside "
@@ -97,7 +99,8 @@ CHECKS = {
              "the real builders (one implementation test per transition; the std side validates the model of core); each "
              "sequence is also materialised as twin types (std derive vs derive_more derive; skipped fields vs hand-written "
              "finish_non_exhaustive builders) as tuple/named structs and variants with real field values, raw identifiers, "
-             "generics, empties and field-level attributes, compared byte for byte over a formatter-spec grid.",
+             "generics, empties and field-level attributes, compared byte for byte over a formatter-spec grid. The failure model "
+             "(FailStop / SinkView: an erroring field, a writer that fails once at byte b) is replayed for every byte budget.",
         note="formatter options are abstracted to (#, other) in the model and instantiated by a 12/25-spec grid; one recorded "
              "finding (pretty tuple fields lose non-# options), filtered only where the text equals the transcription's.",
         technique="TLA+ spec (DebugBuilder state machines) + TLC, replay of every call sequence on real builders, twin-type probes",
@@ -204,7 +207,9 @@ CHECKS = {
              "seeds - over hashed-collection stress inputs (TryInto, FromStr, Mul-like where-clauses, Error bounds) and one input "
              "per code path of every derive, in different orders and repeatedly within a process; the recorded {pid, seq, input, "
              "digest} events are validated by TLC (Trace_Determinism binds the unlogged function input -> digest at first "
-             "sight). Thorough: two separate rustc runs of the real proc-macro (-Zunpretty=expanded) compared byte-wise.",
+             "sight). At the rustc level the real proc-macro expands the stress inputs in separate compiler processes with the items "
+             "at different source positions (uniform shifts and layouts putting a point inside each item on a power of ten), "
+             "and with derive_more built with a single feature alone (fresh processes), compared item by item.",
         note="sampled inputs, not all inputs; nondeterminism that needs more than 16 processes to show a second ordering would "
              "be missed (a seeded std HashMap shows within 2).",
         technique="TLA+ spec (Determinism) + trace validation of expansion digests across processes and orders",
